@@ -829,10 +829,23 @@ def chain_round_trip_rule(chk, src):
     """MatrixProduct / Mps: the writer's dictionary is fed to the reader of the same class; sites, labels, centre, direction, total charge (and prefactor) come back in place"""
     from ..syminterp import SymInterp, Sym, OpenSym, Blob
 
+    def _content(name):
+        return name.startswith(("array-of-site", "coeff"))
+
     class Val(Sym):
-        """stored value; conversions are recorded in the name"""
+        """stored value; conversions are recorded in the name (narrowing conversions of numerical content: tensors, prefactor; bookkeeping integers may be cast)"""
         def astype(self, t):
-            return Val(self._name)
+            wide = t in (complex, "complex", "complex128", "c16") or "complex" in str(t)
+            return Val(self._name if (wide or not _content(self._name)) else f"{self._name}.astype({getattr(t, '__name__', t)})")
+
+        def __abs__(self):
+            return Val(f"abs({self._name})")
+
+        def __float__(self):
+            raise TypeError(f"float() of the stored value {self._name}")
+
+        def round(self, *a):
+            return Val(f"{self._name}.round()")
 
         def tolist(self):
             return Val(self._name)
@@ -910,7 +923,8 @@ def chain_round_trip_rule(chk, src):
                 return make
             cls_ = maker(cname)
             itl = SymInterp(src, resolve, {"np": OpenSym("np", load=lambda *a, **k: Archive("npload"), iscomplexobj=lambda x: False), "backend": Blob("backend"), "logger": Blob("logger"),
-                                        "int": lambda x: x, "bool": lambda x: x, **{k_: maker(k_) for k_ in ("MatrixProduct", "Mps", "MpDm", "Mpo")}})
+                                        "int": lambda x: x if not (isinstance(x, Val) and _content(x._name)) else Val(f"int({x._name})"), "bool": lambda x: x,
+                                        "float": lambda x: Val(f"float({x._name})") if isinstance(x, Val) else float(x), "abs": lambda x: abs(x), **{k_: maker(k_) for k_ in ("MatrixProduct", "Mps", "MpDm", "Mpo")}})
             out = None
             if fail is None:
                 try:
